@@ -34,7 +34,10 @@ impl OverlayFS {
 
     /// Finds the layer entry that serves `path`, without looking at its ancestors
     fn lookup(&self, path: &str) -> VfsResult<VfsPath> {
-        if self.whiteout_path(path)?.exists()? {
+        // a whiteout marker hides the entries of the lower layers. An entry of the write layer is
+        // newer than its marker: create_dir/create_file write the entry first and remove the marker
+        // afterwards, and a concurrent lookup in between must already see the new entry
+        if self.whiteout_path(path)?.exists()? && !self.write_path(path)?.exists()? {
             return Err(VfsErrorKind::FileNotFound.into());
         }
         for layer in &self.layers {
@@ -151,12 +154,20 @@ impl FileSystem for OverlayFS {
             }
         }
         // remove whiteout entries that have been removed
+        let dir_path = path;
         let whiteout_path = self.write_layer().join(format!(".whiteout{}", path))?;
         if whiteout_path.exists()? {
             for path in whiteout_path.read_dir()? {
                 let filename = path.filename();
                 if filename.ends_with("_wo") {
-                    entries.remove(&filename[..filename.len() - 3]);
+                    let name = &filename[..filename.len() - 3];
+                    // (an entry of the write layer is newer than its marker, see lookup)
+                    if !self
+                        .write_path(&format!("{}/{}", dir_path, name))?
+                        .exists()?
+                    {
+                        entries.remove(name);
+                    }
                 }
             }
         }
@@ -257,13 +268,6 @@ impl FileSystem for OverlayFS {
     }
 
     fn exists(&self, path: &str) -> VfsResult<bool> {
-        if self
-            .whiteout_path(path)
-            .map_err(|err| err.with_context(|| "whiteout_path"))?
-            .exists()?
-        {
-            return Ok(false);
-        }
         match self.read_path(path) {
             Ok(path) => path.exists(),
             Err(err) => match err.kind() {
